@@ -69,17 +69,22 @@ Ltac bool_cases :=
          | |- context [xinfo_eqb ?a ?b] => destruct (xinfo_eqb a b)
          end; simpl; try reflexivity.
 
+Section WithTables.
+Variable tb : tables.
+Hypothesis Htb : tables_ok tb = true.
+
 (* two initialised containers that satisfy the invariant: `==` returns exactly the specification
    (the left operand free of NaN, where numpy and xarray disagree) *)
 Theorem eq_res_spec_initialised a b x y :
   Inv a -> Inv b -> c_content a = Some x -> c_content b = Some y -> nan_free (a_data x) = true ->
-  eq_res a b = RetBool (eq_spec a b).
+  eq_res tb a b = RetBool (eq_spec a b).
 Proof.
   intros Ha Hb Hx Hy Hn. unfold Inv, inv_b in Ha, Hb. rewrite Hx in Ha. rewrite Hy in Hb.
-  unfold eq_res, eq_spec. rewrite Hx, Hy.
+  destruct (eq_kinds tb Htb) as [Kb Kg].
+  unfold eq_res, eq_spec, same_geom. rewrite Hx, Hy, Kb, Kg.
   destruct (c_kind a) eqn:Ka.
   - (* Photon *)
-    destruct (c_kind b) eqn:Kb; simpl; try reflexivity.
+    destruct (c_kind b) eqn:Kb'; simpl; try reflexivity.
     apply arr_ok_photon_shape in Ha. apply arr_ok_photon_shape in Hb.
     unfold is_xr, arr_xr_equals, arr_np_equal, arr_same.
     destruct (a_xr x) as [xi|] eqn:Xx; destruct (a_xr y) as [yi|] eqn:Xy.
@@ -91,50 +96,59 @@ Proof.
     + rewrite Ha, Hb. unfold shape_eqb. simpl.
       destruct (list_eqb cell_np_eq (a_data x) (a_data y)); bool_cases.
   - destruct (arr_ok_base_shape Pixel _ _ _ eq_refl Ha) as [X1 S1].
-    destruct (ckind_eqb Pixel (c_kind b)) eqn:Kb; simpl; [|reflexivity].
-    assert (Kb' : c_kind b = Pixel) by (destruct (c_kind b); simpl in Kb; try discriminate; reflexivity).
-    rewrite Kb' in Hb. destruct (arr_ok_base_shape Pixel _ _ _ eq_refl Hb) as [X2 S2].
+    destruct (ckind_eqb Pixel (c_kind b)) eqn:Kb'; simpl; [|reflexivity].
+    assert (Kb'' : c_kind b = Pixel) by (destruct (c_kind b); simpl in Kb'; try discriminate; reflexivity).
+    rewrite Kb'' in Hb. destruct (arr_ok_base_shape Pixel _ _ _ eq_refl Hb) as [X2 S2].
     unfold arr_np_equal, arr_same. rewrite X1, X2, S1, S2. unfold shape_eqb. simpl.
     destruct (list_eqb cell_np_eq (a_data x) (a_data y)); bool_cases.
   - destruct (arr_ok_base_shape Signal _ _ _ eq_refl Ha) as [X1 S1].
-    destruct (ckind_eqb Signal (c_kind b)) eqn:Kb; simpl; [|reflexivity].
-    assert (Kb' : c_kind b = Signal) by (destruct (c_kind b); simpl in Kb; try discriminate; reflexivity).
-    rewrite Kb' in Hb. destruct (arr_ok_base_shape Signal _ _ _ eq_refl Hb) as [X2 S2].
+    destruct (ckind_eqb Signal (c_kind b)) eqn:Kb'; simpl; [|reflexivity].
+    assert (Kb'' : c_kind b = Signal) by (destruct (c_kind b); simpl in Kb'; try discriminate; reflexivity).
+    rewrite Kb'' in Hb. destruct (arr_ok_base_shape Signal _ _ _ eq_refl Hb) as [X2 S2].
     unfold arr_np_equal, arr_same. rewrite X1, X2, S1, S2. unfold shape_eqb. simpl.
     destruct (list_eqb cell_np_eq (a_data x) (a_data y)); bool_cases.
   - destruct (arr_ok_base_shape Image _ _ _ eq_refl Ha) as [X1 S1].
-    destruct (ckind_eqb Image (c_kind b)) eqn:Kb; simpl; [|reflexivity].
-    assert (Kb' : c_kind b = Image) by (destruct (c_kind b); simpl in Kb; try discriminate; reflexivity).
-    rewrite Kb' in Hb. destruct (arr_ok_base_shape Image _ _ _ eq_refl Hb) as [X2 S2].
+    destruct (ckind_eqb Image (c_kind b)) eqn:Kb'; simpl; [|reflexivity].
+    assert (Kb'' : c_kind b = Image) by (destruct (c_kind b); simpl in Kb'; try discriminate; reflexivity).
+    rewrite Kb'' in Hb. destruct (arr_ok_base_shape Image _ _ _ eq_refl Hb) as [X2 S2].
     unfold arr_np_equal, arr_same. rewrite X1, X2, S1, S2. unfold shape_eqb. simpl.
     destruct (list_eqb cell_np_eq (a_data x) (a_data y)); bool_cases.
   - destruct (arr_ok_base_shape Phase _ _ _ eq_refl Ha) as [X1 S1].
-    destruct (ckind_eqb Phase (c_kind b)) eqn:Kb; simpl; [|reflexivity].
-    assert (Kb' : c_kind b = Phase) by (destruct (c_kind b); simpl in Kb; try discriminate; reflexivity).
-    rewrite Kb' in Hb. destruct (arr_ok_base_shape Phase _ _ _ eq_refl Hb) as [X2 S2].
+    destruct (ckind_eqb Phase (c_kind b)) eqn:Kb'; simpl; [|reflexivity].
+    assert (Kb'' : c_kind b = Phase) by (destruct (c_kind b); simpl in Kb'; try discriminate; reflexivity).
+    rewrite Kb'' in Hb. destruct (arr_ok_base_shape Phase _ _ _ eq_refl Hb) as [X2 S2].
     unfold arr_np_equal, arr_same. rewrite X1, X2, S1, S2. unfold shape_eqb. simpl.
     destruct (list_eqb cell_np_eq (a_data x) (a_data y)); bool_cases.
 Qed.
 
-(* hence `==` is symmetric on initialised, NaN-free containers that satisfy the invariant *)
-Theorem eq_res_sym_initialised a b x y :
-  Inv a -> Inv b -> c_content a = Some x -> c_content b = Some y ->
-  nan_free (a_data x) = true -> nan_free (a_data y) = true ->
-  eq_res a b = eq_res b a.
+(* at least one side empty: no hypothesis at all *)
+Theorem eq_res_spec_some_empty a b :
+  c_content a = None \/ c_content b = None -> eq_res tb a b = RetBool (eq_spec a b).
 Proof.
-  intros. rewrite (eq_res_spec_initialised a b x y), (eq_res_spec_initialised b a y x) by assumption.
-  rewrite eq_spec_sym. reflexivity.
+  intros H. destruct (eq_kinds tb Htb) as [Kb Kg].
+  unfold eq_res, eq_spec, same_geom. rewrite Kb, Kg.
+  destruct (c_kind a) eqn:Ka; destruct (c_kind b) eqn:Kb'; simpl; try reflexivity;
+    destruct (Nat.eqb (c_rows a) (c_rows b)), (Nat.eqb (c_cols a) (c_cols b)); simpl; try reflexivity;
+    destruct H as [H|H]; rewrite H; try reflexivity; destruct (c_content a); try reflexivity;
+    destruct (c_content b); reflexivity.
 Qed.
 
-(* two empty containers: `==` is the specification for the ArrayBase classes, and for photons of the
-   same geometry *)
-Theorem eq_res_spec_both_empty a b :
-  c_content a = None -> c_content b = None ->
-  (c_kind a = Photon -> c_kind b = Photon -> c_rows a = c_rows b /\ c_cols a = c_cols b) ->
-  eq_res a b = RetBool (eq_spec a b).
+(* THE equality statement: for all pairs of containers that satisfy the invariant (NaN-free contents) *)
+Theorem eq_res_spec a b :
+  Inv a -> Inv b -> content_nan_free a = true -> content_nan_free b = true ->
+  eq_res tb a b = RetBool (eq_spec a b).
 Proof.
-  intros Ha Hb Hg. unfold eq_res, eq_spec. rewrite Ha, Hb.
-  destruct (c_kind a) eqn:Ka; destruct (c_kind b) eqn:Kb; simpl; try reflexivity;
-    try (destruct (Nat.eqb (c_rows a) (c_rows b)), (Nat.eqb (c_cols a) (c_cols b)); reflexivity).
-  destruct (Hg eq_refl eq_refl) as [-> ->]. rewrite !Nat.eqb_refl. reflexivity.
+  intros Ha Hb Na Nb. destruct (c_content a) as [x|] eqn:Ea; [|apply eq_res_spec_some_empty; auto].
+  destruct (c_content b) as [y|] eqn:Eb; [|apply eq_res_spec_some_empty; auto].
+  apply (eq_res_spec_initialised a b x y); auto. unfold content_nan_free in Na. rewrite Ea in Na. exact Na.
 Qed.
+
+(* hence `==` is symmetric and never raises *)
+Theorem eq_res_sym a b :
+  Inv a -> Inv b -> content_nan_free a = true -> content_nan_free b = true ->
+  eq_res tb a b = eq_res tb b a.
+Proof.
+  intros. rewrite (eq_res_spec a b), (eq_res_spec b a) by assumption. rewrite eq_spec_sym. reflexivity.
+Qed.
+
+End WithTables.
